@@ -28,17 +28,23 @@ Allowed(o) == o \in {"impl", "diagnostic"}
 \* classification of a panic payload (shared, as a table, with the harness; see lib/props/c18.py):
 \* deliberate, descriptive panics for unsupported item kinds count as diagnostics - the compiler shows their text
 Shapes == {"unit_struct", "tuple0", "tuple1", "tuple1_unit", "tuple2", "named0", "named1", "named2", "enum_empty", "enum_unit",
-           "enum_tuple", "enum_named", "enum_mixed", "union", "generic_struct", "generic_enum", "raw_names"}
+           "enum_tuple", "enum_named", "enum_mixed", "union", "generic_struct", "generic_enum", "raw_names",
+           \* raw identifiers as the names of field-less variants, of a struct and its fields, of a newtype
+           "raw_unit_enum", "raw_struct", "raw_newtype"}
 Positions == {"none", "item", "variant", "field"}
 Bodies == {"bare", "empty_parens", "ident", "two_idents", "unknown_ident", "int_literal", "string_literal",
            "eq_string", "nested_list", "nested_literal", "legacy_types_int", "legacy_fmt", "path", "not_wrapped",
            "type_list", "unit_type", "tuple_type", "ref_list", "duplicate_attr", "trailing_comma", "fmt_literal", "fmt_bad_literal",
-           "fmt_unicode", "fmt_huge_number", "fmt_args_deep", "keyword", "punct_soup", "group_soup"}
+           "fmt_unicode", "fmt_huge_number", "fmt_args_deep", "keyword", "punct_soup", "group_soup",
+           \* the single words the attribute grammars know (they open the main path of derives that need one: TryFrom's repr)
+           "word_repr", "word_forward", "word_skip",
+           \* trailing commas inside and after a nested list
+           "nested_trailing", "nested_trailing2"}
 
 \* a position only exists on shapes that have it
 HasPosition(shape, pos) ==
     CASE pos = "none" -> TRUE
       [] pos = "item" -> TRUE
-      [] pos = "variant" -> shape \in {"enum_unit", "enum_tuple", "enum_named", "enum_mixed", "generic_enum", "raw_names"}
-      [] pos = "field" -> shape \notin {"unit_struct", "tuple0", "named0", "enum_empty", "enum_unit"}
+      [] pos = "variant" -> shape \in {"enum_unit", "enum_tuple", "enum_named", "enum_mixed", "generic_enum", "raw_names", "raw_unit_enum"}
+      [] pos = "field" -> shape \notin {"unit_struct", "tuple0", "named0", "enum_empty", "enum_unit", "raw_unit_enum"}
 =============================================================================
